@@ -87,7 +87,7 @@ func runC10(c *Ctx) {
 				if s.Kind == "panic" {
 					ok, why = lookupPanicPaired(s)
 				}
-				if en := FuncName(fn); (en == "(*consensus.MidState).ApplyTransaction" || en == "(*consensus.MidState).ApplyV2Transaction") && s.Kind != "checked-arith" {
+				if en := FuncName(fn); (en == "(consensus.MidState).ApplyTransaction" || en == "(consensus.MidState).ApplyV2Transaction") && s.Kind != "checked-arith" {
 					continue // the apply entries are analysed for arithmetic only; their other sinks are reached (with validation context) from ValidateBlock
 				}
 				nsinks++
@@ -158,16 +158,16 @@ func c10GuardRows(c *Ctx) {
 	ge := NewGuardEngine(c.P, c.Depth+4)
 	weak := func(r GuardReq) GuardReq { r.Weak = true; r.All = true; return r }
 	all := func(r GuardReq) GuardReq { r.All = true; return r }
-	rd := "call (*types.Decoder).ReadUint64({types.Decoder})"
+	rd := "call (types.Decoder).ReadUint64({types.Decoder})"
 	leaf := "…LeafIndex"
 	rows := []GuardReq{
 		weak(req("slice-prefix-vs-remaining:DecodeSlice", "types.DecodeSlice", rd, opGT, "{types.Decoder}.lr.N", "a length prefix larger than the bytes left in the stream is rejected before anything is allocated or looped over")),
 		weak(req("slice-prefix-vs-remaining:DecodeSliceFn", "types.DecodeSliceFn", rd, opGT, "{types.Decoder}.lr.N", "as above, for the function-element slice decoder")),
-		weak(req("bytes-prefix-vs-remaining", "types.(*Decoder).ReadBytes", "call (*types.Decoder).ReadUint64({types.Decoder})", opGT, "{types.Decoder}.lr.N", "a byte-string prefix larger than the bytes left in the stream is rejected before allocation")),
+		weak(req("bytes-prefix-vs-remaining", "types.(*Decoder).ReadBytes", "call (types.Decoder).ReadUint64({types.Decoder})", opGT, "{types.Decoder}.lr.N", "a byte-string prefix larger than the bytes left in the stream is rejected before allocation")),
 		weak(req("v1currency-length", "types.(*V1Currency).DecodeFrom", rd, opGT, "const:16", "a v1 currency longer than 16 bytes is rejected before the buffer is sliced")),
 		all(req("policy-depth", "types.(*SpendPolicy).DecodeFrom", "…", opGT, "const:32", "policy nesting is bounded so that decoding cannot exhaust the stack")),
 		weak(req("multiproof-leaf-index", "types.(*V2TransactionsMultiproof).DecodeFrom", leaf, opGE, rd, "a leaf index not below the claimed leaf count is rejected (the proof length bits.Len64(index^count)-1 would be negative or meaningless)")),
-		weak(req("multiproof-bail-on-error", "types.(*V2TransactionsMultiproof).DecodeFrom", "call (*types.Decoder).Err({types.Decoder})", opNE, "nil", "expansion is skipped once an error was recorded (multiproofSize / expandMultiproof assume valid indices)")),
+		weak(req("multiproof-bail-on-error", "types.(*V2TransactionsMultiproof).DecodeFrom", "call (types.Decoder).Err({types.Decoder})", opNE, "nil", "expansion is skipped once an error was recorded (multiproofSize / expandMultiproof assume valid indices)")),
 		weak(req("outline-kind-range", "gateway.(*V2BlockOutline).decodeFrom", "make[*]", opGT, "const:2", "an outline kind outside 0..2 is rejected before it indexes the counters")),
 		weak(req("outline-count-crosscheck:0", "gateway.(*V2BlockOutline).decodeFrom", "zero[0]", opNE, "len(…)", "the number of kind-0 entries must equal the number of v1 transactions received")),
 		weak(req("outline-count-crosscheck:1", "gateway.(*V2BlockOutline).decodeFrom", "zero[1]", opNE, "len(…)", "the number of kind-1 entries must equal the number of v2 transactions received", "zero[0] == len(…)")),
@@ -229,7 +229,7 @@ var trustedTerm = []string{
 	// contract parents are always accumulator members (validateParent dominates every use; C02 rows v2-live:*)
 	`^\{types\.V2Transaction\}\.FileContract(Revisions|Resolutions)\[\*\]\.Parent\.V2FileContract\.`,
 	`^\{consensus\.MidState\}\.v2fces\[`,
-	`^call \(\*consensus\.MidState\)\.(siacoinElement|siafundElement|fileContractElement)\(`, // looked-up parents: members of the accumulator or created in this block
+	`^call \(consensus\.MidState\)\.(siacoinElement|siafundElement|fileContractElement)\(`, // looked-up parents: members of the accumulator or created in this block
 	`\.siafundTaxRevenue$`, `^call \(consensus\.State\)\.(BlockReward|FoundationSubsidy|SiafundCount)`, `^const:`, `^zero$`,
 }
 
@@ -295,7 +295,7 @@ func arithCovered(s Sink, cov map[string]bool) (bool, string) {
 func lookupPanicPaired(s Sink) (bool, string) {
 	failedLookup, validated := false, false
 	for _, cd := range s.Conds {
-		if cd.Op == "false" && strings.HasPrefix(cd.L, "call (*consensus.MidState).") && strings.HasSuffix(cd.L, "#1") {
+		if cd.Op == "false" && strings.HasPrefix(cd.L, "call (consensus.MidState).") && strings.HasSuffix(cd.L, "#1") {
 			failedLookup = true
 		}
 		if (strings.HasPrefix(cd.L, "call consensus.ValidateTransaction(") || strings.HasPrefix(cd.L, "call consensus.ValidateV2Transaction(")) && cd.Op == "==" && cd.R == "nil" {
@@ -319,19 +319,19 @@ func short(s string) string {
 // arithmetic or data-structure invariant the generic dominance rule cannot derive; where a guard
 // establishes the invariant, that guard is required by a row of c10GuardRows.
 var reviewedSinks = map[string]string{
-	"(*consensus.ElementAccumulator).UnmarshalJSON:index:index …":     "v.Trees is consumed once per set bit of NumLeaves after the guard len(v.Trees) == OnesCount64(NumLeaves) (row accumulator-json-length)",
-	"(*consensus.ElementAccumulator).UnmarshalJSON:slice-low:slice-low …": "same invariant as the index above",
-	"(*consensus.ElementAccumulator).containsLeaf:index:index {consensus.State}.Elements.Trees":                                   "hasTreeAtHeight(len(proof)) is true only for heights < 64 (1<<h is 0 beyond), which is len(Trees); required by C04 row tree-exists",
-	"(*consensus.ElementAccumulator).containsLeaf:index:index {consensus.MidState}.base.Elements.Trees":                           "as above",
-	"(*consensus.ElementAccumulator).containsLeaf:index:index call consensus.NewMidState({consensus.State}).base.Elements.Trees": "as above",
-	"(*gateway.V2BlockOutline).decodeFrom:index:index …":      "txns/v2txns/hashes are consumed once per kind after the cross-check counts[k] == len(...) (rows outline-kind-range, outline-count-crosscheck)",
-	"(*gateway.V2BlockOutline).decodeFrom:slice-low:slice-low …": "as above",
-	"(*types.V2TransactionsMultiproof).DecodeFrom:make:make []types.Hash256": "proof lengths bits.Len64(index^count)-1 are non-negative because index < count was checked (row multiproof-leaf-index); the multiproof buffer is sized from those proofs after the bail-out on error (row multiproof-bail-on-error)",
-	"(*types.SatisfiedPolicy).UnmarshalJSON:index:index zero":  "sp.Preimages is made with len(pre) just above; the loop ranges it",
+	"(consensus.ElementAccumulator).UnmarshalJSON:index:index …":     "v.Trees is consumed once per set bit of NumLeaves after the guard len(v.Trees) == OnesCount64(NumLeaves) (row accumulator-json-length)",
+	"(consensus.ElementAccumulator).UnmarshalJSON:slice-low:slice-low …": "same invariant as the index above",
+	"(consensus.ElementAccumulator).containsLeaf:index:index {consensus.State}.Elements.Trees":                                   "hasTreeAtHeight(len(proof)) is true only for heights < 64 (1<<h is 0 beyond), which is len(Trees); required by C04 row tree-exists",
+	"(consensus.ElementAccumulator).containsLeaf:index:index {consensus.MidState}.base.Elements.Trees":                           "as above",
+	"(consensus.ElementAccumulator).containsLeaf:index:index call consensus.NewMidState({consensus.State}).base.Elements.Trees": "as above",
+	"(gateway.V2BlockOutline).decodeFrom:index:index …":      "txns/v2txns/hashes are consumed once per kind after the cross-check counts[k] == len(...) (rows outline-kind-range, outline-count-crosscheck)",
+	"(gateway.V2BlockOutline).decodeFrom:slice-low:slice-low …": "as above",
+	"(types.V2TransactionsMultiproof).DecodeFrom:make:make []types.Hash256": "proof lengths bits.Len64(index^count)-1 are non-negative because index < count was checked (row multiproof-leaf-index); the multiproof buffer is sized from those proofs after the bail-out on error (row multiproof-bail-on-error)",
+	"(types.SatisfiedPolicy).UnmarshalJSON:index:index zero":  "sp.Preimages is made with len(pre) just above; the loop ranges it",
 	"consensus.hashAll:panic:panic call fmt.Sprintf(const:\"unhandled type %T\", zero)": "arguments are statically typed at every call site (each call is modelled argument by argument by the wire extractor; an unhandled static type makes C12 undecided)",
 	"types.hashAll:panic:panic const:\"unhandled type\"":      "as above",
 	"consensus.ValidateHeader:div:div call (consensus.State).NonceFactor({consensus.State})": "the divisor is 1 or the network's configured ASIC nonce factor: operator configuration, not untrusted input",
-	"(*consensus.MidState).resolveV2FileContractElement:panic:panic const:\"consensus: resolved a newly-created v2 contract\"": "a resolution's parent must be an unresolved leaf of the base accumulator (C02 row v2-live:FileContractResolutions), which a contract created in this block is not",
+	"(consensus.MidState).resolveV2FileContractElement:panic:panic const:\"consensus: resolved a newly-created v2 contract\"": "a resolution's parent must be an unresolved leaf of the base accumulator (C02 row v2-live:FileContractResolutions), which a contract created in this block is not",
 	"(types.StateElement).Move:panic:panic const:\"Move called on shared StateElement\"": "reached from JSON unmarshalling of updates, where the decoded leaves own their memory (the shared marker is unexported and never set by decoding)",
 }
 
@@ -339,8 +339,8 @@ var reviewedSinks = map[string]string{
 // the element's own type, so the index is in range for IDs of that type; IDs of another type can
 // only be supplied through an ephemeral v2 parent, which validateEphemeral* bounds (row ephemeral-index-bound).
 var reviewedSinkPrefixes = map[string]string{
-	"(*consensus.MidState).record":      "index obtained from ms.elements for an ID recorded under this element type (see comment on reviewedSinkPrefixes)",
-	"(*consensus.MidState).createAttestationElement:index": "index of the element appended on the line above",
+	"(consensus.MidState).record":      "index obtained from ms.elements for an ID recorded under this element type (see comment on reviewedSinkPrefixes)",
+	"(consensus.MidState).createAttestationElement:index": "index of the element appended on the line above",
 	"consensus.validateV2FileContracts$4:index:index": "ms.elements[fce.ID] for a contract parent that validateParent has shown to be an unresolved accumulator member",
 
 	"(consensus.State).medianTimestamp:index:": "ts has numTimestamps() >= 1 elements; len(ts)/2 and len(ts)/2-1 (taken only for even, hence >= 2, lengths) are in range",
